@@ -197,7 +197,7 @@ func c16ErrClass(err error) string {
 	var ce coreErrs.ClosedError
 	var ne coreErrs.ConnectError
 	var ae coreErrs.AuthError
-	var sl quic16StreamLimit
+	var slp *vquic.StreamLimitReachedError
 	switch {
 	case errors.As(err, &ce):
 		return "ClosedError"
@@ -205,15 +205,13 @@ func c16ErrClass(err error) string {
 		return "ConnectError"
 	case errors.As(err, &ae):
 		return "AuthError"
-	case errors.Is(err, sl.v()):
+	case errors.As(err, &slp) || errors.Is(err, vquic.StreamLimitReachedError{}):
+		// a closed-connection error that merely WRAPS the stream-limit error is classified above
 		return "StreamLimit"
 	}
 	return "other:" + err.Error()
 }
 
-type quic16StreamLimit struct{}
-
-func (quic16StreamLimit) v() error { return vquic.StreamLimitReachedError{} }
 
 // finalChecks: quiescent-point clauses shared by all scenarios.
 func (w *c16World) finalChecks(rc Client, closed bool) {
@@ -458,7 +456,7 @@ func c16Scenarios() []*explore.Scenario {
 				cur.OpenStreamErr = func(n int) error {
 					if n == cur.OpenStreamCalls && !strings.Contains(strings.Join(w.events, ";"), "limit-injected") {
 						w.ev("limit-injected")
-						return vquic.StreamLimitReachedError{}
+						return &vquic.StreamLimitReachedError{} // quic-go returns the POINTER form (streams_map_outgoing.go), see harness/conform D5
 					}
 					return nil
 				}
